@@ -1,6 +1,6 @@
 --------------------------- MODULE ScopingVerdict ---------------------------
 (* Second phase of the C08 verdict extraction.  Input (IOEnv.VERIF_FACTS): for every
-   read <<id, v, l>> of a program the set of statuses that module Scoping observed
+   read <<id, v, l>> of a program (with its deadness d) the set of statuses that module Scoping observed
    there over all control-flow paths (the harness only forms the union of the
    printed facts).  This module classifies each read with Scoping!Kinds and prints
    one witness record per read that has a witness kind; reads without any kind
@@ -8,7 +8,7 @@
 EXTENDS Naturals, Sequences, FiniteSets, TLC, Json, IOUtils
 
 CONSTANTS NChunks
-S == INSTANCE Scoping WITH Vars <- {"va", "vb"}, pid <- 0, stack <- <<>>, env <- <<>>
+S == INSTANCE Scoping WITH Vars <- {"va", "vb"}, pid <- 0, stack <- <<>>, env <- <<>>, dead <- FALSE
 
 Facts == JsonDeserialize(IOEnv.VERIF_FACTS)
 N == Len(Facts)
@@ -25,7 +25,7 @@ Step == /\ i <= Last(k)
         /\ LET f == Facts[i]
                ks == S!Kinds(ToSet(f.sts))
            IN IF ks = {} THEN TRUE
-              ELSE PrintT(ToJson([id |-> f.id, v |-> f.v, l |-> f.l, kinds |-> ks]))
+              ELSE PrintT(ToJson([id |-> f.id, v |-> f.v, l |-> f.l, d |-> f.d, kinds |-> ks]))
 Spec == Init /\ [][Step]_vars
 Accept == (i = Last(k) + 1) => PrintT(ToJson([accepted |-> k, upto |-> i - 1]))
 =============================================================================
